@@ -69,6 +69,9 @@ def entered0L (cs : List (Compactor ρ)) : List Int :=
 
 def entered0 (s : Sketch ρ) : List Int := entered0L s.compactors
 
+/-- a sketch with a single level has never compacted: level 0 holds exactly what was fed -/
+def ExactL (cs : List (Compactor ρ)) : Prop := ∀ c, cs = [c] → ∀ p, cntP p c.items = cntP p c.entered
+
 structure SInv (T : Tun) (s : Sketch ρ) : Prop where
   k2 : 2 ≤ s.k
   cs : CsInv T s.hra 0 s.compactors
@@ -81,6 +84,7 @@ structure SInv (T : Tun) (s : Sketch ρ) : Prop where
   ent : s.n = (entered0 s).length
   mn : IsMin s.minItem (entered0 s)
   mx : IsMax s.maxItem (entered0 s)
+  ex : ExactL s.compactors
 
 theorem CsInv_append {T : Tun} {hra : Bool} (h : Nat) (a : List (Compactor ρ)) (c : Compactor ρ) :
     CsInv T hra h (a ++ [c]) ↔ CsInv T hra h a ∧ CInv T hra (h + a.length) c := by
@@ -102,10 +106,13 @@ theorem new_SInv {T : Tun} (hT : TunOK T) (F : SecFns ρ) (k : Nat) (hra : Bool)
   refine ⟨hk, ?_, by simp [Sketch.new, Sketch.grow], by simp [Sketch.new, Sketch.grow, sumItems, Compactor.mk', Compactor.numItems],
     by simp [Sketch.new, Sketch.grow], by simp [Sketch.new, Sketch.grow, totalW, weightP, Compactor.mk', cntP],
     by simp [Sketch.new, Sketch.grow], by simp [Sketch.new, Sketch.grow],
-    by simp [Sketch.new, Sketch.grow, entered0, entered0L, Compactor.mk'], ?_, ?_⟩
+    by simp [Sketch.new, Sketch.grow, entered0, entered0L, Compactor.mk'], ?_, ?_, ?_⟩
   · exact ⟨mk'_CInv hT F hra 0 _ hk, trivial⟩
   · left; simp [Sketch.new, Sketch.grow, entered0, entered0L, Compactor.mk']
   · left; simp [Sketch.new, Sketch.grow, entered0, entered0L, Compactor.mk']
+  · intro c hc p
+    simp only [Sketch.new, Sketch.grow, List.nil_append, List.cons.injEq, and_true] at hc
+    subst hc; rfl
 
 /-! ### compress on a sketch -/
 
@@ -124,7 +131,7 @@ theorem compress_SInv {T : Tun} (hT : TunOK T) (F : SecFns ρ) (s : Sketch ρ) (
     have := sp.ent0
     simp only [entered0, entered0L]
     cases h1 : out.1 <;> cases h2 : s.compactors <;> simp [h1, h2] at this ⊢ <;> exact this
-  refine ⟨⟨h.k2, sp.inv, sp.nonnil h.nonnil, ?_, ?_, ?_, fun _ => sp.ne, ?_, ?_, ?_, ?_⟩, sp.throws, hent, ?_, ?_, ?_, ?_, ?_⟩ <;> (try trivial)
+  refine ⟨⟨h.k2, sp.inv, sp.nonnil h.nonnil, ?_, ?_, ?_, fun _ => sp.ne, ?_, ?_, ?_, ?_, ?_⟩, sp.throws, hent, ?_, ?_, ?_, ?_, ?_⟩ <;> (try trivial)
   · simpa using sp.ret
   · simpa using sp.cap
   · show s.n = totalW out.1; rw [sp.tw]; exact h.tw
@@ -132,6 +139,9 @@ theorem compress_SInv {T : Tun} (hT : TunOK T) (F : SecFns ρ) (s : Sketch ρ) (
   · rw [hent]; exact h.ent
   · rw [hent]; exact h.mn
   · rw [hent]; exact h.mx
+  · intro c hc p
+    have h1 : out.1 = s.compactors := sp.one (by rw [show out.1 = [c] from hc]; rfl)
+    exact h.ex c (by rw [← h1]; exact hc) p
 
 /-! ### update -/
 
@@ -165,7 +175,7 @@ theorem update_SInv {T : Tun} (hT : TunOK T) (F : SecFns ρ) (s : Sketch ρ) (x 
   have hlg : (c.append x).lgWeight = 0 := hc.lg
   have hent1 : entered0 s1 = x :: entered0 s := by simp [entered0, entered0L, hs1c, hcs, Compactor.append]
   have hI1 : SInv T s1 := by
-    refine ⟨h.k2, by rw [hs1c]; exact ⟨happ, ht⟩, by rw [hs1c]; simp, ?_, ?_, ?_, ?_, ?_, ?_, ?_, ?_⟩
+    refine ⟨h.k2, by rw [hs1c]; exact ⟨happ, ht⟩, by rw [hs1c]; simp, ?_, ?_, ?_, ?_, ?_, ?_, ?_, ?_, ?_⟩
     · show s.numRetained + 1 = sumItems s1.compactors
       rw [hs1c, sumItems_cons, hlen, h.ret, hcs, sumItems_cons]; omega
     · show s.maxNomSize = sumCap T s1.compactors
@@ -186,6 +196,13 @@ theorem update_SInv {T : Tun} (hT : TunOK T) (F : SecFns ρ) (s : Sketch ρ) (x 
       rw [hent1]; exact IsMin_cons x h.mn
     · show IsMax (optMax s.maxItem x) (entered0 s1)
       rw [hent1]; exact IsMax_cons x h.mx
+    · intro c' hc' p
+      rw [hs1c] at hc'
+      simp only [List.cons.injEq] at hc'
+      obtain ⟨rfl, rfl⟩ := hc'
+      have := h.ex c hcs p
+      simp only [Compactor.append]
+      split <;> simp only [cntP_cons, cntP_append, this, cntP_nil] <;> omega
   show SInv T (if s1.numRetained = s1.maxNomSize then s1.compress T F acc else (s1, acc)).1 ∧ _
   simp only [Sketch.update]
   split
